@@ -12,6 +12,8 @@ import Yv.Model.SplitA
 import Yv.Model.ListingDrv
 import Yv.Model.Subst
 import Yv.Model.DP
+import Yv.Model.GenTab
+import Yv.Model.Digraph
 import Yv.Model.Drive
 import Yv.Model.XDrv
 import Yv.Model.Visitor
@@ -135,6 +137,12 @@ def process (out : IO.FS.Stream) (a : CaseAcc) : IO Unit := do
     out.putStrLn (s!"M ROW {q} " ++ ints (genRow g iau0 ilat q).toList)
   for q in [0:iau0.states.size] do
     for (sy, x, y) in stateWarnings g iau0 ilat q do out.putStrLn s!"M WARN {q} {sy} {x} {y}"
+  -- the VERIFIED list-based generator `Y.GT.genTableL` (genTable_certT: its table always passes certT;
+  -- genRowL_eq_core: it computes the rows of `Core.genRow`) on the same inputs
+  let vrows := Y.GT.genTableCore g iau0 ilat
+  out.putStrLn s!"X genTableL=coreGenRow {verdict (vrows == (List.range iau0.states.size).map fun q => (genRow g iau0 ilat q).toList)}"
+  if a.iRows.size > 0 then
+    out.putStrLn s!"X genTableL=implRows {verdict (vrows == a.iRows.toList)}"
   -- split + pack: from the implementation's dense table
   if a.iRows.size > 0 then
     let irows := a.iRows.toList
@@ -203,6 +211,12 @@ def process (out : IO.FS.Stream) (a : CaseAcc) : IO Unit := do
       out.putStrLn s!"M DPREL includes{pr st.includesSorted}"
       out.putStrLn s!"M DPREL lookback{pr st.lookbackSorted}"
       out.putStrLn s!"X dp=laL {verdict (st.lines yg ya == want)}"
+      -- the same stages with the three closures computed by the VERIFIED model of Digraph/Traverse
+      -- (digraph_least, C03_dp_digraph): same sets
+      out.putStrLn s!"V dgSizeOK {verdict (Y.DG.dgSizeOK yg ya nl)}"
+      match Y.DG.stagesDG yg ya nl with
+      | none => out.putStrLn "X stagesDG=stagesWith FAIL none"
+      | some sd => out.putStrLn s!"X stagesDG=stagesWith {verdict (sd.keyRows yg == st.keyRows yg && sd.laRows == st.laRows)}"
     -- the fast array-based fixpoint (used only for the mirror stage) must agree with the verified one
     match lalr g iau with
     | none => out.putStrLn "X coreLalr=laL FAIL unstable"
